@@ -1208,6 +1208,14 @@ func sameTerm(a, b ssa.Value) bool {
 	}
 	ca, ok1 := a.(*ssa.Call)
 	cb, ok2 := b.(*ssa.Call)
+	if ok1 && ok2 {
+		// len(x) / cap(x) of the same term
+		ba, isBa := ca.Call.Value.(*ssa.Builtin)
+		bb, isBb := cb.Call.Value.(*ssa.Builtin)
+		if isBa && isBb && ba.Name() == bb.Name() && (ba.Name() == "len" || ba.Name() == "cap") && len(ca.Call.Args) == 1 && len(cb.Call.Args) == 1 {
+			return sameTerm(ca.Call.Args[0], cb.Call.Args[0])
+		}
+	}
 	if ok1 && ok2 && ca.Call.StaticCallee() != nil && ca.Call.StaticCallee() == cb.Call.StaticCallee() && len(ca.Call.Args) == len(cb.Call.Args) {
 		for i := range ca.Call.Args {
 			if !sameTerm(ca.Call.Args[i], cb.Call.Args[i]) {
